@@ -690,9 +690,13 @@ func (st *tstate) allocContents(root *ssa.Alloc, cur ssa.Value, prefix []string,
 							for _, pw := range ws {
 								full := append(append([]string{}, prefix...), pw.prefix...)
 								if rest, ok := relPath(full, path); ok {
+									wc := hc
+									for _, v := range pw.via {
+										wc = &tctx{parent: wc, fn: v.Common().StaticCallee(), call: v.Common(), depth: wc.depth}
+									}
 									old := st.at
 									st.at = nil
-									st.trace(pw.st.Val, rest, hc)
+									st.trace(pw.st.Val, rest, wc)
 									st.at = old
 									n++
 								}
@@ -1140,8 +1144,9 @@ func (st *tstate) freeVarStores(fv *ssa.FreeVar, path []string, c *tctx) int {
 // paramWrite is a store a helper makes through one of its pointer parameters.
 type paramWrite struct {
 	st     *ssa.Store
-	prefix []string // field path below the pointee
-	must   bool     // executed on every path of the helper that returns
+	prefix []string    // field path below the pointee
+	must   bool        // executed on every path of the helper that returns
+	via    []*ssa.Call // calls (outermost first) through which the pointer was handed on to the function that stores
 }
 
 var outparamWritesMemo = map[*ssa.Parameter]struct {
@@ -1155,6 +1160,10 @@ func outparamWrites(p *ssa.Parameter) ([]paramWrite, bool) {
 	if m, ok := outparamWritesMemo[p]; ok {
 		return m.ws, m.simple
 	}
+	outparamWritesMemo[p] = struct {
+		ws     []paramWrite
+		simple bool
+	}{nil, false} // in progress (recursion): not simple
 	fn := p.Parent()
 	var rets []*ssa.BasicBlock
 	for _, b := range fn.Blocks {
@@ -1191,7 +1200,7 @@ func outparamWrites(p *ssa.Parameter) ([]paramWrite, bool) {
 			switch r := ref.(type) {
 			case *ssa.Store:
 				if r.Addr == cur {
-					ws = append(ws, paramWrite{r, prefix, must(r)})
+					ws = append(ws, paramWrite{r, prefix, must(r), nil})
 				} else {
 					simple = false
 				}
@@ -1202,6 +1211,35 @@ func outparamWrites(p *ssa.Parameter) ([]paramWrite, bool) {
 			case *ssa.UnOp:
 				if r.Op != token.MUL {
 					simple = false
+				}
+			case *ssa.Call:
+				// the pointer is handed on (a method of the same object calling another): what that callee stores
+				h := r.Common().StaticCallee()
+				if h == nil || h.Blocks == nil || r.Common().IsInvoke() || h == fn {
+					if !(h != nil && hasSuffixAny(callName(r.Common()), readOnlyPointerCallees...)) {
+						simple = false
+					}
+					continue
+				}
+				for i, a := range r.Common().Args {
+					if a != cur {
+						continue
+					}
+					if i >= len(h.Params) {
+						simple = false
+						continue
+					}
+					if readOnlyParam(h.Params[i], 0) {
+						continue
+					}
+					ws2, simple2 := outparamWrites(h.Params[i])
+					if !simple2 {
+						simple = false
+						continue
+					}
+					for _, w2 := range ws2 {
+						ws = append(ws, paramWrite{w2.st, append(append([]string{}, prefix...), w2.prefix...), must(r) && w2.must, append([]*ssa.Call{r}, w2.via...)})
+					}
 				}
 			case *ssa.DebugRef:
 			case *ssa.BinOp:
